@@ -124,7 +124,8 @@ pub fn run_case(u: &Universe, case: &Value) -> Vec<Value> {
             if let Ok(k) = DescriptorPublicKey::from_str(t) {
                 kj["ok"] = json!(true);
                 let p = k.to_string();
-                kj["fix"] = json!(p == *t);
+                // fixed point after ONE round trip: the printed form may normalise the written one (h for ')
+                kj["fix"] = json!(DescriptorPublicKey::from_str(&p).map(|k2| k2.to_string() == p).unwrap_or(false));
                 kj["eq"] = json!(DescriptorPublicKey::from_str(&p).map(|k2| k2 == k).unwrap_or(false));
             }
             keys.push(kj);
@@ -133,7 +134,7 @@ pub fn run_case(u: &Universe, case: &Value) -> Vec<Value> {
                 if let Ok(k) = DescriptorSecretKey::from_str(&st) {
                     sj["ok"] = json!(true);
                     let p = k.to_string();
-                    sj["fix"] = json!(p == st);
+                    sj["fix"] = json!(DescriptorSecretKey::from_str(&p).map(|k2| k2.to_string() == p).unwrap_or(false));
                     // DescriptorSecretKey has no Eq: compare through the printed form and the public key
                     let again = DescriptorSecretKey::from_str(&p).ok();
                     let same_pub = match (&again, k.to_public(&u.secp)) {
